@@ -283,7 +283,42 @@ def c19_jobs(tier):
     return jobs
 
 
+def c16_jobs(tier):
+    q = tier == 'quick'
+    jobs = [J('root', 'H_C16_igamc_edge', [], noigamc=True)] if False else []
+    two = [(0, 0), (4, 0), (7, 7), (7, 3), (8, 16), (8, 1), (14, 0)]
+    chi = [(1, 10), (2, 4), (2, 8), (3, 5), (10, 5), (10, 2)]
+    ns = (100, 101) if q else (100, 101, 102, 104, 128)
+    for (t, par) in two:
+        for n in ns:
+            jobs.append(J('root', 'H_C16_twosided', [t, par, n], stubs=['fft_summary'], fdiv_candidates=True))
+    for (t, par) in chi:
+        for n in ns[:1] if (q and t in (3, 10)) else ns:
+            jobs.append(J('root', 'H_C16_chisquare', [t, par, n], fdiv_candidates=True))
+    for n in (128, 130):
+        for one in (1, 0):
+            jobs.append(J('root', 'H_C16_chisquare', [6, one, n], fdiv_candidates=True))
+    for (m, n) in ((2, 9), (3, 19)):
+        jobs.append(J('root', 'H_C16_chisquare', [11, m, n]))
+    for (m, n) in ((4, 9), (5, 16)):
+        jobs.append(J('root', 'H_C16_chisquare', [12, m, n]))
+    # small lengths as well (the same code; exposes degenerate divisors)
+    for n in ((2, 3, 8) if q else (1, 2, 3, 5, 8, 16)):
+        jobs.append(J('root', 'H_C16_twosided', [0, 0, n], fdiv_candidates=True))
+        jobs.append(J('root', 'H_C16_twosided', [4, 0, n], fdiv_candidates=True))
+    if not q:
+        jobs.append(J('root', 'H_C16_chisquare', [5, 0, 100], timeout_ms=300000))
+    return jobs
+
+
 PROPS = {
+    'C16': {
+        'jobs': c16_jobs,
+        'bounds': {'quick': 'n in {100,101}: monobit, runs, binary derivative (k=3,7), autocorrelation (d=1,16), DFT (transform summarised): P = 2 min(Q,1-Q), ranges; block frequency, poker (4,8), overlapping (5), approximate entropy (2,5), longest run (128,130): Q = P, ranges; rank 2x2/3x3 and linear complexity m=4,5 at small n; inputs with a zero float divisor are found by the solver and replayed natively (IEEE Inf/NaN behaviour)',
+                   'thorough': 'n in {100,101,102,104,128}; runs distribution at n=100'},
+        'outside': 'cumulative sums range (not derivable from erf axioms), Maurer; n up to 10^7 - only the result shapes, which do not depend on n, and the degenerate-divisor inputs at the bounded n are decided; the Pass flag is C15',
+        'assumptions': ['erfc axioms (range, reflection, monotonicity, erfc(x)<=1 for x>=0)', '0 <= igamc <= 1 is ASSUMED (its verification is property C06, not applicable)', 'NaN can only arise from a zero divisor / negative sqrt or log argument in the real-arithmetic model; zero-divisor inputs are replayed natively'],
+    },
     'C05': {
         'jobs': c05_jobs,
         'bounds': {'quick': 'every n in 2..32 (powers of two, non powers, 2^k+1): padded +-1 input vector, count range i < n/2-1, threshold sqrt(2.995732274 n), N0, variance constant 3.8, P/Q tail; ceilPow2 for ALL 1 <= n <= 2^62 (63 unwindings, feasibility-pruned)',
